@@ -22,7 +22,7 @@ from hypothesis import strategies as st
 from .. import simenv
 from ..core import Lab, Violation, HarnessError
 from . import robot_reg
-from .robot_reg import CTX, Injected
+from .robot_reg import CTX, Injected, InjectedBase
 
 MODES = ("disabled", "auto", "teleop", "test")
 HOOKS = ("autonomousInit", "teleopInit", "disabledInit", "testInit", "teleopPeriodic", "disabledPeriodic", "testPeriodic", "robotPeriodic")
@@ -403,6 +403,8 @@ def run_program(case, with_faults=True, with_writes=True):
         if with_faults:
             for f in case.get("faults", []):
                 CTX.faults[f["site"]] = "all" if f["occ"] == "all" else set(f["occ"])
+                if f.get("base"):
+                    CTX.base_faults.add(f["site"])
         if with_writes:
             for w in case.get("writes", []):
                 CTX.writes.setdefault((w["by"], w["n"]), []).append((w["comp"], w["attr"], w["value"]))
@@ -585,7 +587,7 @@ def decode_robot(code):
         c = {"n": f"c{i}", "setup": bool(flags & 1), "en": bool(flags & 2), "dis": bool(flags & 4)}
         if rv == 2 and not nplain:
             c["sm"] = True  # this component is a magicbot StateMachine
-        c["resets"] = {f"r{j}": RESET_VALUES[(rv + j) % 5] for j in range(nres)}
+        c["resets"] = {(f"_r{j}" if (rv + j) % 3 == 0 else f"r{j}"): RESET_VALUES[(rv + j) % 5] for j in range(nres)}  # markers may be private names too
         c["base_resets"] = {f"b{j}": RESET_VALUES[(rv + 2 + j) % 5] for j in range(nbres)}
         if nbres and rv == 3:
             c["resets"]["b0"] = RESET_VALUES[(rv + 3) % 5]  # the derived class declares the inherited marker again
@@ -653,7 +655,10 @@ def decode_faults(code, rs):
         if site in seen:
             continue
         seen.add(site)
-        out.append({"site": site, "occ": [[1], [2], [3], [1, 2], "all", [2, 5]][occ]})
+        f = {"site": site, "occ": [[1], [2], [3], [1, 2], "all", [2, 5]][occ]}
+        if s % 5 == 0:
+            f["base"] = True  # raise a BaseException subclass instead of an Exception subclass
+        out.append(f)
     return out
 
 
@@ -821,7 +826,7 @@ class C06(RobotLab):
 
     def run_case(self, case):
         run = run_program(case, with_faults=bool(case.get("fms")))
-        if run.exc is not None and isinstance(run.exc, Injected):
+        if run.exc is not None and isinstance(run.exc, (Injected, InjectedBase)):
             return {"nontrivial": False, "classes": ["aborted-by-C07-root-cause"]}
         self.check_alive_and_exc(case, run)
         rs = case["robot"]
@@ -982,7 +987,7 @@ class C10(RobotLab):
         run = run_program(case, with_faults=True, with_writes=True)
         rs = case["robot"]
         if run.exc is not None:
-            if isinstance(run.exc, Injected):
+            if isinstance(run.exc, (Injected, InjectedBase)):
                 # root cause belongs to C07 (unguarded callback); not double-counted here
                 return {"nontrivial": False, "classes": ["aborted-by-C07-root-cause"]}
             raise Violation(f"C10/robot-died/{type(run.exc).__name__}", f"startCompetition() ended with {run.exc!r}; case: {case}")
@@ -1058,7 +1063,7 @@ class C11(RobotLab):
         run = run_program(case, with_faults=True)
         rs = case["robot"]
         if run.exc is not None:
-            if isinstance(run.exc, Injected):
+            if isinstance(run.exc, (Injected, InjectedBase)):
                 return {"nontrivial": False, "classes": ["aborted-by-C07-root-cause"]}
             raise Violation(f"C11/robot-died/{type(run.exc).__name__}", f"startCompetition() ended with {run.exc!r}; case: {case}")
         fbs = {}
